@@ -58,8 +58,110 @@ ParamFailed(line) ==
    \cup (IF ~(line.q2 = line.q1 /\ line.h2 = line.h1 /\ line.c2 = line.c1) THEN {"second_validation_changes_nothing"} ELSE {})
    \cup (IF ~line.docSame THEN {"document_unchanged"} ELSE {})
 
+-----------------------------------------------------------------------------
+(* Histories (kind "hist", spec/Gen_C13H.tla): the L1 contract folded over the steps.  Per request the fold keeps     *)
+(*   cur     the JSON value the request carries according to L1 (the value sent; completed with its defaults by the   *)
+(*           first accepted validation with default-setting on; a fixed point from then on)                           *)
+(*   changed an accepted validation has completed cur with a default (the body was re-written)                       *)
+(*   rej     a validation with default-setting on has rejected the request (the body is as received or completed)     *)
+(*   pdone   an accepted validation with default-setting on has run: every absent parameter carries its default      *)
+(*   tried   some validation with default-setting on has run                                                         *)
+(* and every read of a body, whenever it happens, must yield what the request carries -- whatever was done to OTHER   *)
+(* requests in between: a request is not a view on shared storage.                                                    *)
+HInit(c) == [r \in DOMAIN c.reqs |-> [cur |-> c.reqs[r].v, changed |-> FALSE, rej |-> FALSE, pdone |-> FALSE, tried |-> FALSE]]
+
+Locs == {"query", "header", "cookie"}
+CarrierBad(r, x, o, q0) ==
+   (IF (r.skip \/ r.pp.query # "absent") /\ o.q # q0 THEN {"forwarded_query_unchanged"} ELSE {})
+   \cup (IF r.pp.header = "present" /\ o.hn # 1 THEN {"forwarded_header_unchanged"} ELSE {})
+   \cup (IF r.pp.cookie = "present" /\ o.cn # 1 THEN {"forwarded_cookie_unchanged"} ELSE {})
+   \cup (IF r.pp.header \in {"none", "absent"} /\ (r.pp.header = "none" \/ ~x.tried) /\ o.hn # 0 THEN {"forwarded_header_unchanged"} ELSE {})
+   \cup (IF r.pp.cookie \in {"none", "absent"} /\ (r.pp.cookie = "none" \/ ~x.tried) /\ o.cn # 0 THEN {"forwarded_cookie_unchanged"} ELSE {})
+   \* exactly once: one header value / one cookie, and each absent parameter decodes to its default in the forwarded request
+   \cup (IF x.pdone /\ r.pp.header = "absent" /\ o.hn # 1 THEN {"default_exactly_once_header"} ELSE {})
+   \cup (IF x.pdone /\ r.pp.cookie = "absent" /\ o.cn # 1 THEN {"default_exactly_once_cookie"} ELSE {})
+   \cup (IF x.pdone /\ r.pp.query = "absent" /\ ~("dq" \in DOMAIN o /\ Eq(o.dq, r.pdflt.query)) THEN {"default_appears_decodable_query"} ELSE {})
+   \cup (IF x.pdone /\ r.pp.header = "absent" /\ ~("dh" \in DOMAIN o /\ Eq(o.dh, r.pdflt.header)) THEN {"default_appears_decodable_header"} ELSE {})
+   \cup (IF x.pdone /\ r.pp.cookie = "absent" /\ ~("dc" \in DOMAIN o /\ Eq(o.dc, r.pdflt.cookie)) THEN {"default_appears_decodable_cookie"} ELSE {})
+
+ReadBad(r, x, o, sent) ==
+   LET hasP == "parsed" \in DOMAIN o
+       \* rejected with default-setting on: as received, or already completed with its defaults
+       alt == WithDefaults(r.schema, x.cur) IN
+   (IF ~x.changed /\ o.after # sent /\ (r.skip \/ ~(hasP /\ (Eq(o.parsed, x.cur) \/ (x.rej /\ Eq(o.parsed, alt)))))
+    THEN {IF x.rej THEN "body_readable_in_full" ELSE "body_readable_unchanged"} ELSE {})
+   \cup (IF x.changed /\ ~(hasP /\ Eq(o.parsed, x.cur)) THEN {"defaults_exactly_once"} ELSE {})
+   \cup (IF o.clen # o.len THEN {"content_length_matches"} ELSE {})
+   \cup (IF o.getbody # "<nil>" /\ o.getbody # o.after THEN {"getbody_yields_same"} ELSE {})
+
+RECURSIVE HistFold(_, _, _, _)
+HistFold(line, i, st, seen) ==
+   LET c == line.c IN
+   IF i > Len(c.steps) THEN {}
+   ELSE LET s == c.steps[i]  r == c.reqs[s.r]  o == line.obs[i]  x == st[s.r] IN
+        IF s.op = "V"
+        THEN LET w == IF r.skip THEN x.cur ELSE WithDefaults(r.schema, x.cur)
+                 ok == SecPasses(r.sec) /\ Valid(r.schema, w, "asreq")
+                 x2 == IF ok /\ ~r.skip
+                       THEN [x EXCEPT !.cur = w, !.changed = @ \/ ~Eq(w, x.cur), !.pdone = TRUE, !.tried = TRUE]
+                       ELSE [x EXCEPT !.rej = @ \/ (~ok /\ ~r.skip), !.tried = @ \/ ~r.skip]
+                 first == s.r \notin seen IN
+             (IF o.verdict \in {"panic", "crash", "hang"} THEN {"no_panic"} ELSE {})
+             \cup (IF ok /\ o.verdict = "error" THEN {IF first THEN "valid_request_accepted" ELSE "revalidates_same"} ELSE {})
+             \cup (IF ~ok /\ o.verdict = "ok" THEN {"invalid_request_rejected"} ELSE {})
+             \cup CarrierBad(r, x2, o, line.q0[s.r])
+             \cup HistFold(line, i + 1, [st EXCEPT ![s.r] = x2], seen \cup {s.r})
+        ELSE ReadBad(r, x, o, line.sent[s.r]) \cup CarrierBad(r, x, o, line.q0[s.r])
+             \cup HistFold(line, i + 1, st, seen)
+
+HistFailed(line) ==
+   IF Len(line.obs) # Len(line.c.steps) THEN {"history_realised"}
+   ELSE HistFold(line, 1, HInit(line.c), {}) \cup (IF ~line.docSame THEN {"document_unchanged"} ELSE {})
+
+-----------------------------------------------------------------------------
+(* Model fidelity (warnings, never violations): the serial histories are also run through the L2 model BodyStreamH    *)
+(* instantiated as the tree is (fresh encoder slices, the encoder's result assigned to the captured variable, JSON    *)
+(* the only encodable type, Close bound when deferred); what the harness saw of the real request after every step --   *)
+(* verdict, kind of reader and of GetBody installed, where the header / query default is, what a read yields -- is     *)
+(* compared with the model's state.                                                                                     *)
+M == INSTANCE BodyStreamH WITH EncoderBuffer <- "fresh", EncodeVar <- "captured", Encoders <- {"application/json"}, CloseBinding <- "at_defer"
+BranchSets(b, v) == ~Eq(WithDefaults(b, v), v)
+Reenc(s, v) == \/ Has(s, "oneOf") /\ \E i \in DOMAIN s.oneOf : BranchSets(s.oneOf[i], v)
+               \/ Has(s, "anyOf") /\ \E i \in DOMAIN s.anyOf : BranchSets(s.anyOf[i], v) /\ \A j \in 1..(i - 1) : ~Matches(s.anyOf[j], v)
+MCfg(r) == LET wd == WithDefaults(r.schema, r.v) IN
+   [mt |-> r.mt, valid |-> Valid(r.schema, IF r.skip THEN r.v ELSE wd, "asreq"), hasDef |-> ~Eq(wd, r.v), reenc |-> Reenc(r.schema, wd), skip |-> r.skip, preset |-> r.preset,
+    auth |-> CASE r.sec = "none" -> "none" [] r.sec = "pass_read" -> "read_pass" [] r.sec = "fail_read" -> "read_fail",
+    pq |-> r.pp.query, ph |-> r.pp.header]
+Diff(i, what, m, seen) == IF m = seen THEN {} ELSE {[step |-> i, what |-> what, model |-> m, seen |-> seen]}
+HClass(r, o) == IF r.pp.header = "present" THEN (IF o.hn = 1 THEN "client" ELSE "other")
+                ELSE IF o.hn = 0 THEN "absent" ELSE IF o.hn = 1 /\ "dh" \in DOMAIN o /\ Eq(o.dh, r.pdflt.header) THEN "dflt" ELSE "other"
+QClass(r, o, q0) == IF o.q = q0 THEN (IF r.pp.query = "present" THEN "client" ELSE "absent")
+                    ELSE IF "dq" \in DOMAIN o /\ Eq(o.dq, r.pdflt.query) THEN "dflt" ELSE "other"
+TextClass(r, text, sent, hasP, parsed) == IF text = sent \/ (hasP /\ Eq(parsed, r.v)) THEN "orig" ELSE IF text = "" THEN "empty"
+                                          ELSE IF hasP /\ Eq(parsed, WithDefaults(r.schema, r.v)) THEN "dflt" ELSE "other"
+RECURSIVE ModelFold(_, _, _)
+ModelFold(line, i, g) ==
+   IF i > Len(line.c.steps) THEN {}
+   ELSE LET s == line.c.steps[i]  r == line.c.reqs[s.r]  o == line.obs[i]  c == MCfg(r)
+            g2 == IF s.op = "V" THEN M!SerialValidate(g, s.r, c) ELSE M!HandlerRead(g, s.r) IN
+        (IF s.op = "V" THEN Diff(i, "verdict", g2.x[s.r].verdict, o.verdict)
+         ELSE Diff(i, "read", M!WhatARead(g, s.r)[1], TextClass(r, o.after, line.sent[s.r], "parsed" \in DOMAIN o, IF "parsed" \in DOMAIN o THEN o.parsed ELSE r.v))
+              \cup (IF g.x[s.r].gb.kind = "none" THEN {}
+                    ELSE Diff(i, "getbody", M!WhatGetBodyYields(g, s.r)[1],
+                              IF o.getbody = o.after THEN TextClass(r, o.after, line.sent[s.r], "parsed" \in DOMAIN o, IF "parsed" \in DOMAIN o THEN o.parsed ELSE r.v)
+                              ELSE TextClass(r, o.getbody, line.sent[s.r], FALSE, r.v))))
+        \cup Diff(i, "bodyKind", M!BodyKind(g2, s.r), o.bk) \cup Diff(i, "gbKind", M!GbKind(g2, s.r), o.gk)
+        \cup Diff(i, "header", g2.x[s.r].h, HClass(r, o)) \cup Diff(i, "query", g2.x[s.r].q, QClass(r, o, line.q0[s.r]))
+        \cup ModelFold(line, i + 1, g2)
+FidelityOK(line) ==
+   IF line.doc = "ok" /\ line.c.kind = "hist" /\ "obs" \in DOMAIN line /\ Len(line.obs) = Len(line.c.steps)
+   THEN LET d == ModelFold(line, 1, M!InitG([k \in DOMAIN line.c.reqs |-> MCfg(line.c.reqs[k])])) IN
+        d = {} \/ CSVWrite("%1$s", <<ToJson([case |-> line.case, what |-> "history differs from BodyStreamH", diffs |-> d, c |-> line.c])>>, "fidelity.ndjson")
+   ELSE TRUE
+
 Failed(line) ==
    IF line.doc # "ok" THEN {"document_rejected"}
+   ELSE IF line.c.kind = "hist" THEN (IF "obs" \in DOMAIN line THEN HistFailed(line) ELSE {"no_panic"})
    ELSE IF line.verdict1 \in {"panic", "crash", "hang"} \/ line.verdict2 \in {"panic", "crash", "hang"} THEN {"no_panic"}
    ELSE IF line.c.kind = "body" THEN BodyFailed(line) ELSE ParamFailed(line)
 
@@ -68,6 +170,6 @@ LineOK(line) ==
    bad = {} \/ CSVWrite("%1$s", <<ToJson([case |-> line.case, c |-> line.c, failed |-> bad,
                                            obs |-> [x \in (DOMAIN line) \ {"c", "case"} |-> line[x]],
                                            class |-> Class(line, bad)])>>, "violations.ndjson")
-Judge == l > 0 => LineOK(Trace[l])
+Judge == l > 0 => (LineOK(Trace[l]) /\ FidelityOK(Trace[l]))
 AllConsumed == TLCGet("stats").diameter = Len(Trace) + 1
 =============================================================================
